@@ -1033,6 +1033,14 @@ func (c *Client) DialToSMTPClientWithContext(ctxDial context.Context) (*smtp.Cli
 		return nil, err
 	}
 
+	// The dial context only covers the connection establishment. Greeting, EHLO, STARTTLS and
+	// AUTH are bounded by a deadline on the connection, which is lifted again once the client
+	// is ready
+	if err = connection.SetDeadline(time.Now().Add(c.connTimeout)); err != nil {
+		_ = connection.Close()
+		return nil, fmt.Errorf("failed to set connection deadline: %w", err)
+	}
+
 	client, err := smtp.NewClient(connection, c.host)
 	if err != nil {
 		return nil, err
@@ -1060,6 +1068,11 @@ func (c *Client) DialToSMTPClientWithContext(ctxDial context.Context) (*smtp.Cli
 	if err = c.auth(client, isEncrypted); err != nil {
 		_ = client.Close()
 		return nil, err
+	}
+
+	if err = connection.SetDeadline(time.Time{}); err != nil {
+		_ = client.Close()
+		return nil, fmt.Errorf("failed to reset connection deadline: %w", err)
 	}
 
 	return client, nil
@@ -1491,6 +1504,12 @@ func (c *Client) checkConn(client *smtp.Client) error {
 		return ErrNoActiveConnection
 	}
 
+	// the deadline has to be in place before the NOOP, otherwise a server that went silent
+	// blocks the connection check forever
+	if err := client.UpdateDeadline(c.connTimeout); err != nil {
+		return ErrDeadlineExtendFailed
+	}
+
 	c.mutex.RLock()
 	noNoop := c.noNoop
 	c.mutex.RUnlock()
@@ -1498,10 +1517,6 @@ func (c *Client) checkConn(client *smtp.Client) error {
 		if err := client.Noop(); err != nil {
 			return ErrNoActiveConnection
 		}
-	}
-
-	if err := client.UpdateDeadline(c.connTimeout); err != nil {
-		return ErrDeadlineExtendFailed
 	}
 	return nil
 }
